@@ -270,6 +270,8 @@ TracePair ==
                   [] p.mode = "mirror_events"   -> PViol(p, p.fact /\ (Ra.status = Rb.status))
                   [] p.mode = "prefix_cb"       -> PViol(p, Rel_PrefixCb(Ra, Cb, Rb))
                   [] p.mode = "equal_cb"        -> PViol(p, Rel_EqualCb(Ra, Rb))
+                  \* the same stepper evaluations (times and states), status and counters; callbacks are not compared
+                  [] p.mode = "equal_low"       -> PViol(p, Ra.status = Rb.status /\ Ra.oded = Rb.oded /\ Counters(Ra) = Counters(Rb))
                   [] p.mode = "dense_indep"     -> PViol(p, Rel_DenseIndep(Ra, Rb))
                   [] OTHER                      -> PViol(p, Rel_EqualCb(Ra, Rb) /\ Ra.oded = Rb.oded)   \* double_from:k (states mapped back by the recorder)
     /\ UNCHANGED <<C, A>>
